@@ -752,36 +752,83 @@ func ruleC17Complex(w *World, r *Report, f, isW, isE, isR, width, exactUn *ssa.F
 		return isKK && kk > 0 && kk < 65535 && (op == token.LEQ || op == token.LSS)
 	})
 	r.check(wg, "R17.2", name, "Exact expansion only under a Width() bound", pos, "dominated by Width() <= K", "the Exact expansion is not bounded by a width check")
-	// fast paths
+	// decision prefix: evaluate the pure branch conditions of asComplexTernaryMatches(pr, Exact)
+	// for a representative of every order class and compare where control arrives with the class
+	reps := []uint64{0, 1, 2, 3, 50, 100, 101, 102, 200, 65434, 65435, 65533, 65534, 65535}
 	n := 0
-	okEnum := enumPaths(f, 1, 20000, func(p *Path) {
-		cls := pathClass(p, isW, isE, isR)
-		ret, _ := p.last().(*ssa.Return)
-		if ret == nil || !isNilConst(ret.Results[1]) {
-			return
+	type outcome struct{ kind, lit string }
+	classify := func(lo, hi uint64) (outcome, ssa.Instruction) {
+		e := &evaluator{}
+		visited, end := e.trace(f, []evalVal{prVal(lo, hi), {u: uint64(exactStrategy), ok: true}})
+		for _, b := range visited {
+			if b == iv.Block() {
+				return outcome{kind: "expand"}, end
+			}
 		}
-		if strings.Contains(cls, "exact=T") || strings.Contains(cls, "wildcard=T") {
-			n++
-			// the single appended element
-			var lit string
-			cnt := 0
-			p.instrs(func(i ssa.Instruction) {
+		ret, isRet := end.(*ssa.Return)
+		if !isRet {
+			return outcome{kind: "unknown"}, end
+		}
+		if !isNilConst(ret.Results[1]) {
+			return outcome{kind: "refuse"}, end
+		}
+		// a successful return before the loop: the appended literal
+		lit := "?"
+		cnt := 0
+		for _, b := range visited {
+			for _, i := range b.Instrs {
 				if c, ok := i.(*ssa.Call); ok && calleeName(c) == "builtin.append" {
 					cnt++
-					lit = appendedLiteral(p, c.Call.Args[1])
+					lit = appendedLiteral(&Path{Blocks: visited}, c.Call.Args[1])
 				}
-			})
-			want := "{0,0}"
-			if strings.Contains(cls, "exact=T") {
-				want = "exact()"
 			}
-			r.check(cnt == 1 && lit == want, "R17.2", name, "fast path["+cls+"] → one rule "+want, w.Pos(ret.Pos()), lit, fmt.Sprintf("fast path returns %d rules %s", cnt, lit))
 		}
-	})
-	if !okEnum {
-		brokenf(P, "R17.2", "too many paths in asComplexTernaryMatches")
+		return outcome{kind: fmt.Sprintf("return%d", cnt), lit: lit}, end
 	}
-	r.floor("R17.2 fast paths of asComplexTernaryMatches", n, 2)
+	badDesc := ""
+	sawW, sawE, sawX, sawR := false, false, false, false
+	for _, lo := range reps {
+		for _, hi := range reps {
+			if lo > hi {
+				continue // inverted ranges never reach here (R17.4)
+			}
+			n++
+			o, _ := classify(lo, hi)
+			isWild := (lo == 0 && hi == 65535) || (lo == 0 && hi == 0)
+			isExact := lo == hi && hi != 0
+			var want string
+			switch {
+			case isWild:
+				want = "return1 {0,0}"
+				sawW = true
+			case isExact:
+				want = "return1 exact()"
+				sawE = true
+			default:
+				want = "expand|refuse"
+			}
+			got := o.kind
+			if o.lit != "" {
+				got += " " + o.lit
+			}
+			ok := got == want
+			if want == "expand|refuse" {
+				ok = o.kind == "expand" || o.kind == "refuse"
+				// the range must be refused when it is wider than any bound the Exact strategy could honour
+				if o.kind == "expand" {
+					sawX = true
+				} else if o.kind == "refuse" {
+					sawR = true
+				}
+			}
+			if !ok && badDesc == "" {
+				badDesc = fmt.Sprintf("(%d,%d) → %s, want %s", lo, hi, got, want)
+			}
+		}
+	}
+	r.Extra["R17.2_decision_prefix_evaluations"] = n
+	r.check(badDesc == "", "R17.2", name, "Exact strategy: wildcard→{0,0}, exact→{low,0xFFFF}, true range→expanded or refused, per order class", pos, fmt.Sprintf("%d representatives", n), "asComplexTernaryMatches(Exact) misclassifies "+badDesc)
+	r.check(sawW && sawE && sawX && sawR, "R17.2", name, "all four outcomes of the Exact strategy are reachable", pos, "wildcard, exact, expand, refuse", "an outcome of the Exact strategy is unreachable (control skeleton changed)")
 }
 
 func reachesBlock(from, to *ssa.BasicBlock) bool {
